@@ -8,13 +8,19 @@ Hard facts (an unrecognised shape raises TranslateError):
   build_map_args, build_pen_args   the same for the two calls of build() (Hamiltonian, penalty)
   energy_compose_ok    energy_estimation composes  ansatz | reference + ansatz  on `self.ref_state is None`
                        and appends the projective circuit
-  defl_sim_order_ok    the deflation loop simulates  circ + circuit.inverse()
-Soft facts (booleans selecting the as-written or the repaired variant of the model; either value is
-accepted, the correspondence run decides whether the implementation behaves accordingly):
-  restore_in_finally        the restoring assignment of operator_expectation sits in a `finally:` body
-  opexp_uses_reference      the circuit of operator_expectation mentions self.reference_circuit
-  defl_key_is_ansatz_width  the looked-up key is "0" * self.ansatz.circuit.width
+  defl_sim_order_ok    the deflation loop simulates  circ + circuit.inverse()  (directly or through a local name)
+  defl_key_is_ansatz_width  the looked-up key is "0" * self.ansatz.circuit.width (True) or "0" * <simulated circuit>.width
+                            (False); any other width expression is refused
+Facts with two recognised values (they select the as-written or the repaired variant of the model; the
+property theorems of props/C08.v are stated for the value found on the current tree, so a regression breaks
+the proof step and the oracle then looks for the failing input):
+  restore_in_finally        every restoring assignment of operator_expectation sits in a `finally:` body
+  opexp_uses_reference      operator_expectation mentions self.reference_circuit
   scbk_case_sensitive       the scbk test is `self.qubit_mapping == "scbk"` (no lower()/upper())
+  defaults_guarded_by_scbk  the molecule's active-space data are taken as defaults only inside the scbk test
+
+FALLBACK: the facts of the tree this check was last adapted to; used by the harness (labelled in the evidence)
+when the translator refuses the source, so that the proof step and the model correspondence still run.
 """
 import ast
 
@@ -114,6 +120,48 @@ def _restore_facts(fn):
     return in_finally == restores
 
 
+def _defaults_guard(fn):
+    """Is `n_active_electrons = ...self.molecule.n_active_electrons...` only reached under a test mentioning scbk?"""
+    found = []
+
+    def visit(node, tests):
+        for child in ast.iter_child_nodes(node):
+            if isinstance(node, ast.If) and child in node.body:
+                visit(child, tests + [_src(node.test)])
+            elif isinstance(node, ast.If) and child in node.orelse:
+                visit(child, tests + ["not (%s)" % _src(node.test)])
+            else:
+                visit(child, tests)
+        if (isinstance(node, ast.Assign) and len(node.targets) == 1 and isinstance(node.targets[0], ast.Name)
+                and node.targets[0].id == "n_active_electrons" and "self.molecule.n_active_electrons" in _src(node.value)):
+            found.append(tests)
+    visit(fn, [])
+    if len(found) != 1:
+        raise TranslateError("operator_expectation: expected one default `n_active_electrons = self.molecule.n_active_electrons...`, "
+                             "found %d" % len(found))
+    tests = found[0]
+    if not any(x.replace(" ", "") in ("self.molecule", "bool(self.molecule)") for x in tests):
+        raise TranslateError("operator_expectation: the molecule defaults are not under `if self.molecule`: %s" % tests)
+    return any("scbk" in x.lower() and not x.startswith("not (") for x in tests)
+
+
+FALLBACK = {
+    "sym_table": [("N", "number_operator", "(Some false)"), ("Sz", "spinz_operator", "(Some false)"), ("S^2", "spin2_operator", "(Some false)")],
+    "opexp_map_args": [("fermion_operator", "exp_op"), ("mapping", "self.qubit_mapping"), ("n_spinorbitals", "n_active_sos"),
+                       ("n_electrons", "n_active_electrons"), ("up_then_down", "self.up_then_down"), ("spin", "spin")],
+    "build_map_args": [("fermion_operator", "self.molecule.fermionic_hamiltonian"), ("mapping", "self.qubit_mapping"),
+                       ("n_spinorbitals", "self.molecule.n_active_sos"), ("n_electrons", "self.molecule.n_active_electrons"),
+                       ("up_then_down", "self.up_then_down"), ("spin", "self.molecule.active_spin")],
+    "build_pen_args": [("fermion_operator", "pen_ferm"), ("mapping", "self.qubit_mapping"),
+                       ("n_spinorbitals", "self.molecule.n_active_sos"), ("n_electrons", "self.molecule.n_active_electrons"),
+                       ("up_then_down", "self.up_then_down"), ("spin", "self.molecule.active_spin")],
+    "restore_in_finally": True, "opexp_uses_reference": False, "defl_key_is_ansatz_width": False, "scbk_case_sensitive": False,
+    "defaults_guarded_by_scbk": False, "energy_compose_ok": True, "defl_sim_order_ok": True,
+    "opexp_circuit": "ref_state + self.ansatz.circuit", "defl_key_width": "overlap_circuit.width",
+    "defl_sim": "circ + circuit.inverse()", "scbk_test": "self.qubit_mapping.lower() == 'scbk'",
+}
+
+
 def extract(repo):
     tree = parse("%s/%s" % (repo, SRC))
     t = {}
@@ -140,6 +188,7 @@ def extract(repo):
         raise TranslateError("operator_expectation: expected one comparison with 'scbk', found %d" % len(scbk))
     t["scbk_case_sensitive"] = _is_self_attr(scbk[0].left, "qubit_mapping")
     t["scbk_test"] = _src(scbk[0])
+    t["defaults_guarded_by_scbk"] = _defaults_guard(fn)
     # ---------------------------------------------------------------- energy_estimation
     fe = find_def(tree, "energy_estimation", cls="VQESolver")
     circ = [n for n in fe.body if isinstance(n, ast.Assign) and len(n.targets) == 1
@@ -162,8 +211,22 @@ def extract(repo):
     sims = [n for n in ast.walk(loops[0]) if isinstance(n, ast.Call) and _src(n.func) == "self.backend.simulate"]
     if len(sims) != 1 or len(sims[0].args) != 1:
         raise TranslateError("energy_estimation: deflation loop does not call self.backend.simulate(<circuit>) once")
-    t["defl_sim"] = _src(sims[0].args[0])
-    if t["defl_sim"] != "%s + circuit.inverse()" % lv:
+    want = "%s + circuit.inverse()" % lv
+    # local names bound (once) inside the loop to the simulated circuit
+    bound = {}
+    for n in ast.walk(loops[0]):
+        if isinstance(n, ast.Assign) and len(n.targets) == 1 and isinstance(n.targets[0], ast.Name):
+            if n.targets[0].id in bound:
+                raise TranslateError("energy_estimation: %s assigned twice in the deflation loop" % n.targets[0].id)
+            bound[n.targets[0].id] = _src(n.value)
+    arg = sims[0].args[0]
+    simname = None
+    if isinstance(arg, ast.Name) and bound.get(arg.id) == want:
+        simname = arg.id
+        t["defl_sim"] = want
+    else:
+        t["defl_sim"] = _src(arg)
+    if t["defl_sim"] != want:
         raise TranslateError("energy_estimation: deflation loop simulates %s" % t["defl_sim"])
     t["defl_sim_order_ok"] = True
     augs = [n for n in ast.walk(loops[0]) if isinstance(n, ast.AugAssign) and isinstance(n.op, ast.Add)
@@ -179,7 +242,14 @@ def extract(repo):
     if not (isinstance(key, ast.BinOp) and isinstance(key.op, ast.Mult) and _src(key.left) == "'0'"):
         raise TranslateError("energy_estimation: deflation key is not '0' * width: %s" % _src(key))
     t["defl_key_width"] = _src(key.right)
-    t["defl_key_is_ansatz_width"] = t["defl_key_width"] == "self.ansatz.circuit.width"
+    simulated = ["(%s).width" % want] + (["%s.width" % simname] if simname else [])
+    if t["defl_key_width"] == "self.ansatz.circuit.width":
+        t["defl_key_is_ansatz_width"] = True
+    elif t["defl_key_width"] in simulated:
+        t["defl_key_is_ansatz_width"] = False
+    else:
+        raise TranslateError("energy_estimation: deflation key width %s is neither the ansatz circuit's nor the simulated "
+                             "circuit's" % t["defl_key_width"])
     # ---------------------------------------------------------------- build
     fb = find_def(tree, "build", cls="VQESolver")
     calls = _mapping_calls(fb)
@@ -223,6 +293,7 @@ def emit(t):
              "Definition opexp_uses_reference : bool := %s." % _cb(t["opexp_uses_reference"]),
              "Definition defl_key_is_ansatz_width : bool := %s." % _cb(t["defl_key_is_ansatz_width"]),
              "Definition scbk_case_sensitive : bool := %s." % _cb(t["scbk_case_sensitive"]),
+             "Definition defaults_guarded_by_scbk : bool := %s." % _cb(t["defaults_guarded_by_scbk"]),
              "Definition energy_compose_ok : bool := %s." % _cb(t["energy_compose_ok"]),
              "Definition defl_sim_order_ok : bool := %s." % _cb(t["defl_sim_order_ok"]),
              "Definition opexp_circuit_src : string := %s." % _cs(t["opexp_circuit"]),
